@@ -23,7 +23,7 @@ TITLE = 'strict vs non-strict'
 LEVEL = 'exploration'
 SHARDS = {'quick': 16, 'thorough': 16}
 FLOOR = {'quick': 800, 'thorough': 10000}
-REQUIRED_MONITORS = {'valid-pairs-compared': 1000, 'strict-rejections-located': 800, 'deferred-raised': 300, 'deferred-dead': 300, 'same-text-planted-twice': 100, 'empty-expression-sites': 100, 'line-ending-sites': 200, 'location-history-steps': 300, 'load-chain-steps': 400, 'file-version-uses': 500}
+REQUIRED_MONITORS = {'valid-pairs-compared': 1000, 'strict-rejections-located': 800, 'deferred-raised': 300, 'deferred-dead': 300, 'same-text-planted-twice': 100, 'empty-expression-sites': 100, 'line-ending-sites': 200, 'location-history-steps': 300, 'load-chain-steps': 400, 'metal-and-handler-sites': 400, 'file-version-uses': 500}
 RULE = ('valid layer: a case = (program, binding table), strict and non-strict renderings compared; planted layer: a case = '
         '(program, planted slot, planting form in {alone, first pipe alternative, later pipe alternative, under not:, string: '
         'part, ${} part}, binding table); non-trivial: valid iff >=1 expression, planted always; distinct by (site kind, '
@@ -290,6 +290,7 @@ def run(ctx):
     layer_empty(ctx)
     layer_line_endings(ctx)
     layer_load_chain(ctx, 12 if ctx.quick else 200)
+    layer_metal_and_error_handler_sites(ctx, 30 if ctx.quick else 500)
     layer_file_versions(ctx, 15 if ctx.quick else 250)
     layer_location_history(ctx, 6 if ctx.quick else 60)
     rng = ctx.rng
@@ -610,6 +611,71 @@ def layer_file_versions(ctx, n):
             ctx.case(key=('filever', tuple(hist)), nontrivial='write(invalid)' in hist)
     finally:
         shutil.rmtree(tmp, ignore_errors=True)
+
+
+
+def layer_metal_and_error_handler_sites(ctx, n):
+    """Invalid expressions at sites the program generator does not reach: inside macro bodies (rendered in place and
+    through use-macro), slot defaults and fillers, and as the tal:on-error expression (reached when the element's body
+    fails).  Strict compilation reports the error; the non-strict twin raises the SAME error (message, token, offset)
+    exactly when the site is reached."""
+    from chameleon import PageTemplate
+    from chameleon.exc import ExpressionError
+    rng = ctx.rng
+    for case in range(n):
+        bad = rng.choice(BADS)
+        site = rng.choice(['macro-body', 'macro-body-used', 'slot-default', 'filler', 'on-error', 'on-error-in-macro', 'macro-attribute'])
+        lead = rng.choice(['', '\n', 'é <!-- c -->\n  '])
+        B = '${%s}' % bad
+        if site == 'macro-body':
+            src = '<div metal:define-macro="m%d"><p tal:condition="reach">%s</p>x</div>' % (case, B)
+        elif site == 'macro-body-used':
+            src = ('<tal:c condition="False"><div metal:define-macro="m%d"><p tal:condition="reach">%s</p>x</div></tal:c>'
+                   '<div metal:use-macro="template.macros[\'m%d\']"/>' % (case, B, case))
+        elif site == 'slot-default':
+            src = '<div metal:define-macro="m%d"><i metal:define-slot="s"><p tal:condition="reach">%s</p></i></div>' % (case, B)
+        elif site == 'filler':
+            src = ('<tal:c condition="False"><div metal:define-macro="m%d"><i metal:define-slot="s">d</i></div></tal:c>'
+                   '<div metal:use-macro="template.macros[\'m%d\']"><u metal:fill-slot="s"><p tal:condition="reach">%s</p></u></div>' % (case, case, B))
+        elif site == 'on-error':
+            src = '<div tal:on-error="%s">${1/0 if reach else 1}</div>' % bad
+        elif site == 'on-error-in-macro':
+            src = '<div metal:define-macro="m%d"><b tal:on-error="%s">${1/0 if reach else 1}</b></div>' % (case, bad)
+        else:
+            src = '<div metal:define-macro="m%d"><p tal:condition="reach" tal:attributes="a %s">x</p></div>' % (case, bad)
+        src = lead + '<r>' + src + '</r>'
+        off = src.index(bad)
+        try:
+            PageTemplate(src, strict=True)
+            strict = None
+        except ExpressionError as e:
+            strict = (e.args[0], str(e.token), e.offset)
+        except Exception as e:
+            strict = ('other', type(e).__name__, str(e).split('\n')[0][:80])
+        ctx.mon('metal-and-handler-sites')
+        ctx.case(key=('metalsite', site, bad, bool(lead)), nontrivial=True)
+        replay = {'kind': 'metalsite', 'src': src}
+        if strict is None or strict[0] == 'other' or strict[1] != bad.strip() or strict[2] != off + (len(bad) - len(bad.lstrip())):
+            ctx.violation('strict-error-missing-or-misplaced:' + site, 'template %r strict: %r (planted %r at %d)' % (src, strict, bad, off), replay)
+            continue
+        try:
+            lax = PageTemplate(src, strict=False)
+        except Exception as e:
+            ctx.violation('non-strict-compilation-fails:' + site, 'template %r: %s: %s' % (src, type(e).__name__, str(e).split('\n')[0]), replay)
+            continue
+        for reach in (0, 1):
+            try:
+                lax(reach=reach)
+                got = 'rendered'
+            except ExpressionError as e:
+                got = (e.args[0], str(e.token), e.offset)
+            except Exception as e:
+                got = ('other', type(e).__name__, str(e).split('\n')[0][:80])
+            want = strict if reach else 'rendered'
+            if got != want:
+                ctx.violation('deferred-error-differs-from-strict-error:' + site,
+                              'template %r reach=%d: non-strict %r, expected %r (strict compilation: %r)' % (src, reach, got, want, strict), replay)
+                break
 
 
 def layer_line_endings(ctx):
